@@ -502,7 +502,7 @@ Section Worker.
     let ever := ever_files f0 h in
     forallb (fun e => match e with
                       | FsWrite p _ | FsRemove p => negb (touches_out p)
-                      | FsRemoveDir d => negb (touches_out d) && negb (mem_path d ever)
+                      | FsRemoveDir d => negb (touches_out d)
                       | _ => true
                       end) h
     && forallb (fun a => forallb (fun b => negb (strict_prefix a b)) ever) ever
